@@ -611,10 +611,20 @@ setdefault = Contract('LRI.setdefault', setup=get_setup, requires=lambda c: pub_
                       ensures=get_ensures_for(True), modifies=PUB_MOD, returns=VALRET, variants=['LRI', 'LRU'])
 get.ghost_mod = setdefault.ghost_mod = ['t', 'clock', 'live']
 
-for _c in [setitem, getitem_lri, getitem_lru, delitem, pop, popitem, clear, initll, get, setdefault]:
+# ---- __len__ (takes the lock; also called by __setitem__ in the middle of its update, so it requires nothing) -----------------
+def len_ensures(c):
+    return [('len = size of the dict part', c.r() == c.f(c.sv('self'), 'size')),
+            ('nothing changes', z3.And(same(c, RING_KEYS + DICT_KEYS + COUNTER_KEYS), ghost_same(c)))]
+
+
+length = Contract('LRI.__len__', setup=S(), requires=lambda c: [], ensures=len_ensures, modifies=lambda c: [],
+                  returns=lambda c: SInt(c.st.fresh.const('len', z3.IntSort())), variants=['LRI', 'LRU'])
+
+for _c in [setitem, getitem_lri, getitem_lru, delitem, pop, popitem, clear, initll, get, setdefault, length]:
     CONTRACTS[_c.qualname] = _c
 PUBLIC = [('LRI.__setitem__', ['LRI', 'LRU']), ('LRI.__getitem__', ['LRI']), ('LRU.__getitem__', ['LRU']),
           ('LRI.__delitem__', ['LRI', 'LRU']), ('LRI.pop', ['LRI', 'LRU']), ('LRI.popitem', ['LRI', 'LRU']),
-          ('LRI.clear', ['LRI', 'LRU']), ('LRI.get', ['LRI', 'LRU']), ('LRI.setdefault', ['LRI', 'LRU'])]
+          ('LRI.clear', ['LRI', 'LRU']), ('LRI.get', ['LRI', 'LRU']), ('LRI.setdefault', ['LRI', 'LRU']),
+          ('LRI.__len__', ['LRI'])]
 HELPERS = ['LRI._get_link_and_move_to_front_of_ll', 'LRI._set_key_and_add_to_front_of_ll',
            'LRI._set_key_and_evict_last_in_ll', 'LRI._remove_from_ll']
